@@ -4,7 +4,7 @@ import os, shutil, subprocess, sys, tempfile
 HERE = os.path.dirname(os.path.dirname(os.path.abspath(__file__)))
 props = sys.argv[1:] or ["C%02d" % i for i in range(1, 21)]
 for p in props:
-    pd = "/tmp/wt-%s/seeded/patch.diff" % p
+    pd = os.environ.get("WT_PREFIX", "/tmp/wt-") + "%s/seeded/patch.diff" % p
     if not os.path.exists(pd) or os.path.getsize(pd) == 0:
         print("%s: no patch" % p); continue
     tmp = tempfile.mkdtemp(prefix="pyvc-h-")
